@@ -519,3 +519,7 @@ fn name_in(name: &str, known: &[&str]) -> bool {
         known.contains(&name)
     }
 }
+
+#[cfg(kani)]
+#[path = "/verif/kani/transformfns.rs"]
+mod kani_verif;
